@@ -13,6 +13,9 @@ LEVEL_TEXT = ("static: decides the framing protocol in both directions on every 
               "datagram per frame and asks for write events when TCP bytes remain; zero-length datagrams are dropped before parsing and a truncated "
               "UDP answer is retried over TCP unless IGNTC. Does not decide equality of delivered responses over all segmentations."
               " Also decides (COUNT) the byte count is defined on every success, (REREAD) a TCP connection is re-read in one pass only after a full buffer, (READLOSS) whether received bytes can be torn down unparsed (one known finding), (ATOMIC) a failed write leaves no partial frame in the out buffer.")
+# fifth-round additions
+TECHNIQUE += "; " + 'other-edge reachability to delivery for any further condition in front of the TC arm'
+LEVEL_TEXT += " " + "(ZERO-TC) a condition added in front of the TC arm (such as 'not already on TCP') must not be able to let the truncated answer through; the switch to TCP is followed by the queued re-send on every path."
 LEVEL_NOTE = "trusts clang CFG + extractor and the ares_buf primitives' contracts (tag/rollback/consume), which C19/C02 rules look at separately"
 DESIGN_REF = "DESIGN.md §6/C20"
 EXPLANATION = LEVEL_TEXT
